@@ -102,6 +102,10 @@ def eq_node(a, b):
     if ia or ib:
         if not (ia and ib):
             return F
+        if isinstance(a, SymInt) and isinstance(b, SymInt) and a.n is not b.n and not a.signed and not b.signed and a.w == b.w:
+            # GF(2)-linear wiring (xor / shifts / masks) is put in bit-level normal form before the solver sees it
+            na, nb = ir.gf2_canon(a.n), ir.gf2_canon(b.n)
+            return ir.cmp('eq', na, nb)
         return core.bnode(a == b)
     ba = isinstance(a, (builtins.bytes, bytearray, SymBytes))
     bb = isinstance(b, (builtins.bytes, bytearray, SymBytes))
